@@ -90,6 +90,15 @@ namespace bloch::runtime {
     }
     // A qubit handle is bound once, by the declaration that allocates it. The analyser rejects the
     // copies it can see; a slot typed by a class type parameter is only known to hold a qubit here.
+    // The qubits an object allocated for its fields are reset and released when it dies, by going
+    // through those fields: a field that holds them is never overwritten (only a class type
+    // parameter instantiated with qubit can get here - the analyser refuses the visible forms).
+    static void rejectQubitOverwrite(const Value& slot, int line, int column) {
+        if (slot.type == Value::Type::Qubit || slot.type == Value::Type::QubitArray)
+            throw BlochError(ErrorCategory::Runtime, line, column,
+                             "a field that holds qubits cannot be overwritten");
+    }
+
     static void rejectQubitCopy(const Value& v, int line, int column) {
         if (v.type == Value::Type::Qubit || v.type == Value::Type::QubitArray) {
             throw BlochError(ErrorCategory::Runtime, line, column,
@@ -861,7 +870,7 @@ namespace bloch::runtime {
         return {};
     }
 
-    void RuntimeEvaluator::assign(const std::string& name, const Value& v) {
+    void RuntimeEvaluator::assign(const std::string& name, const Value& v, int line, int column) {
         for (size_t i = m_env.size(); i-- > m_frameStart;) {
             auto fit = m_env[i].find(name);
             if (fit != m_env[i].end()) {
@@ -885,6 +894,7 @@ namespace bloch::runtime {
             if (!m_inStaticContext && thisObj) {
                 RuntimeField* field = findInstanceField(m_currentClassCtx, name);
                 if (field && field->offset < thisObj->fields.size()) {
+                    rejectQubitOverwrite(thisObj->fields[field->offset], line, column);
                     Value newVal =
                         stampStatic(widenToSlot(v, field->type.kind), field->type.className);
                     thisObj->fields[field->offset] = newVal;
@@ -893,6 +903,7 @@ namespace bloch::runtime {
             }
             auto [field, owner] = findStaticFieldWithOwner(m_currentClassCtx, name);
             if (field && owner && field->offset < owner->staticStorage.size()) {
+                rejectQubitOverwrite(owner->staticStorage[field->offset], line, column);
                 Value newVal =
                     stampStatic(widenToSlot(v, field->type.kind), field->type.className);
                 owner->staticStorage[field->offset] = newVal;
@@ -1944,6 +1955,10 @@ namespace bloch::runtime {
                     endFrame();
                     rejectQubitCopy(raw, field.line, field.column);
                 }
+                if (slot.type == Value::Type::Qubit || slot.type == Value::Type::QubitArray) {
+                    endFrame();
+                    rejectQubitOverwrite(slot, field.line, field.column);
+                }
                 Value init = stampStatic(widenToSlot(raw, field.type.kind), field.type.className);
                 slot = init;
                 endFrame();
@@ -2554,7 +2569,7 @@ namespace bloch::runtime {
             }
         } else if (auto destroy = dynamic_cast<DestroyStatement*>(s)) {
             if (auto var = dynamic_cast<VariableExpression*>(destroy->target.get())) {
-                assign(var->name, {});
+                assign(var->name, {}, destroy->line, destroy->column);
                 requestGc();
             } else if (auto mem = dynamic_cast<MemberAccessExpression*>(destroy->target.get())) {
                 Value obj = eval(mem->object.get());
@@ -2563,8 +2578,11 @@ namespace bloch::runtime {
                                               ? findInstanceField(obj.objectValue->cls, mem->member)
                                               : nullptr;
                     if (field) {
-                        if (field->offset < obj.objectValue->fields.size())
+                        if (field->offset < obj.objectValue->fields.size()) {
+                            rejectQubitOverwrite(obj.objectValue->fields[field->offset],
+                                                 destroy->line, destroy->column);
                             obj.objectValue->fields[field->offset] = {};
+                        }
                         requestGc();
                     }
                 }
@@ -2574,7 +2592,7 @@ namespace bloch::runtime {
         } else if (auto assignStmt = dynamic_cast<AssignmentStatement*>(s)) {
             Value val = eval(assignStmt->value.get());
             rejectQubitCopy(val, assignStmt->line, assignStmt->column);
-            assign(assignStmt->name, val);
+            assign(assignStmt->name, val, assignStmt->line, assignStmt->column);
         }
     }
 
@@ -3601,7 +3619,7 @@ namespace bloch::runtime {
         } else if (auto assignExpr = dynamic_cast<AssignmentExpression*>(e)) {
             Value v = eval(assignExpr->value.get());
             rejectQubitCopy(v, assignExpr->line, assignExpr->column);
-            assign(assignExpr->name, v);
+            assign(assignExpr->name, v, assignExpr->line, assignExpr->column);
             return v;
         } else if (auto memAssign = dynamic_cast<MemberAssignmentExpression*>(e)) {
             Value obj = eval(memAssign->object.get());
@@ -3617,10 +3635,13 @@ namespace bloch::runtime {
                         ? findInstanceField(obj.objectValue->cls, memAssign->member)
                         : nullptr;
                 if (instField) {
-                    if (instField->offset < obj.objectValue->fields.size())
+                    if (instField->offset < obj.objectValue->fields.size()) {
+                        rejectQubitOverwrite(obj.objectValue->fields[instField->offset],
+                                             memAssign->line, memAssign->column);
                         obj.objectValue->fields[instField->offset] =
                             stampStatic(widenToSlot(rhs, instField->type.kind),
                                         instField->type.className);
+                    }
                 } else {
                     auto [staticField, owner] =
                         obj.objectValue->cls
